@@ -167,6 +167,7 @@ class RefWorld:
 
     # ------------------------------------------------------------------ operations
     def apply(self, op):
+        self.empty_operand = False
         try:
             return "ok", self._apply(op)
         except Expected as e:
@@ -274,7 +275,7 @@ class RefWorld:
             out = []
             for r in f.obj.rows:
                 if r[0] == "nan":
-                    out.append("nan")
+                    out.append("n0")  # datetime.min sorts before every real epoch
                 else:
                     q = Fraction(r[0][1:]) + Fraction(r[1][1:])
                     out.append("n" + (str(q.numerator) if q.denominator == 1 else f"{q.numerator}/{q.denominator}"))
@@ -283,13 +284,13 @@ class RefWorld:
 
     def sort(self, d, path):
         col = self.key_column(d, path)
-        if any(c == "nan" for c in col) and self.find(d.fields, path.split(".")).kind == "time":
-            raise Skip("empty epochs in the sort key")
         order = sorted(range(len(col)), key=lambda i: key_of(col[i]))  # Python's sort is stable
         d.fields = self.map_objects(d.fields, lambda rows: [rows[i] for i in order])
 
     def extend(self, d, e):
         n, m = d.n, e.n
+        if n == 0 or m == 0:
+            self.empty_operand = True
         pairs: Dict[tuple, RObj] = {}
         partner_a: Dict[int, Any] = {}
         partner_b: Dict[int, Any] = {}
@@ -543,6 +544,8 @@ def judge(ctx, op, concrete, status, out, exp_status, exp_out, rw, rf):
     """the property, stated on the real code: after the operation the real world equals the reference"""
     case = {"ops": list(concrete)}
     lab = op_label(op)
+    if getattr(rf, "empty_operand", False):
+        lab += "[empty-operand]"  # extend / merge where one of the datasets has no rows
     if exp_status == "skip":
         ctx.count("oracle-skip")
         return
